@@ -149,6 +149,111 @@ func (cx *Ctx) rebuiltFromImported(it roleTable, px string) bool {
 	return true
 }
 
+// anchoredToExported: every import write under px (a prefix of no table, not exported) is
+// tied to exported data: it sits next to the restoration of an exported record (same
+// function, same innermost loop), or in a function that scans an exported prefix and
+// rebuilds from what it finds. A loop of its own over a genesis list that ExportGenesis
+// never fills restores nothing.
+func (cx *Ctx) anchoredToExported(imp *Reach, it, et roleTable, px string) bool {
+	exported := func(p string) bool { return p != px && coveredBy(p, et["read"]) }
+	sub := map[*ssa.Function]*Reach{}
+	subOf := func(f *ssa.Function) *Reach {
+		if sub[f] == nil {
+			sub[f] = cx.reachableCS([]*ssa.Function{f})
+		}
+		return sub[f]
+	}
+	touches := func(f *ssa.Function, kinds map[string]bool) bool {
+		for _, g := range subOf(f).Order {
+			if g.Blocks == nil || !isIrismodFunc(g) {
+				continue
+			}
+			for _, p := range cx.primsOf(g) {
+				if !kinds[p.Kind] {
+					continue
+				}
+				for _, q := range p.Prefix {
+					if exported(q) {
+						return true
+					}
+				}
+			}
+		}
+		return false
+	}
+	writes := map[string]bool{"store.set": true}
+	reads := map[string]bool{"store.get": true, "store.iter": true, "store.riter": true}
+	for _, u := range it["write"][px] {
+		anchored := false
+		for _, G := range imp.Order {
+			if G.Blocks == nil || !isIrismodFunc(G) || anchored {
+				continue
+			}
+			// the instructions of G that lead to this write: the store call itself, or calls
+			// whose callee subtree contains the writing function
+			var leads, others []ssa.Instruction
+			for _, b := range G.Blocks {
+				for _, ins := range b.Instrs {
+					ci, ok := ins.(ssa.CallInstruction)
+					if !ok {
+						continue
+					}
+					if G == u.fn && ins == u.site.(ssa.Instruction) {
+						leads = append(leads, ins)
+						continue
+					}
+					hit := false
+					for _, e := range cx.calleesOf(ci) {
+						if e.Kind != "dynamic" && subOf(e.Callee).Has(u.fn) {
+							hit = true
+						}
+					}
+					if hit {
+						leads = append(leads, ins)
+					} else {
+						others = append(others, ins)
+					}
+				}
+			}
+			for _, l := range leads {
+				lh := loopHeaderOf(l.Block())
+				// (b) the leading call's own subtree scans exported data
+				if ci, ok := l.(ssa.CallInstruction); ok && !(G == u.fn && l == u.site.(ssa.Instruction)) {
+					for _, e := range cx.calleesOf(ci) {
+						// a dedicated rebuild step: scans exported data, restores none itself
+						if e.Kind != "dynamic" && touches(e.Callee, reads) && !touches(e.Callee, writes) {
+							anchored = true
+						}
+					}
+				}
+				// (a) a sibling in the same innermost loop restores an exported record
+				for _, o := range others {
+					if loopHeaderOf(o.Block()) != lh {
+						continue
+					}
+					oc := o.(ssa.CallInstruction)
+					if k := cx.classifyCall(oc); k == "store.set" {
+						for _, q := range cx.storeKeyPrefix(oc, k) {
+							if exported(q) {
+								anchored = true
+							}
+						}
+					}
+					for _, e := range cx.calleesOf(oc) {
+						if e.Kind != "dynamic" && (touches(e.Callee, writes) || (lh == nil && touches(e.Callee, reads))) {
+							anchored = true
+						}
+					}
+				}
+			}
+		}
+		if !anchored {
+			return false
+		}
+	}
+	return true
+}
+
 // exportReads: prefixes read on the ExportGenesis path of module m (context-sensitive reach).
 func (cx *Ctx) exportReads(m string) map[string][]prefixUse {
 	if cx.expReads == nil {
@@ -283,7 +388,7 @@ func runC12(cx *Ctx, r *Report) {
 				r.ok("G1-runtime-exported", m+"|"+px, pos, "written at run time; rebuilt by InitGenesis from exported data (derived)")
 			case contains(c12Dropped[m], px):
 				r.ok("G1-runtime-exported", m+"|"+px, pos, "written at run time; in-flight data documented as dropped on export")
-			case len(it["write"][px]) > 0 && cx.rebuiltFromImported(it, px):
+			case len(it["write"][px]) > 0 && cx.rebuiltFromImported(it, px) && cx.anchoredToExported(cx.reachableCS(im), it, et, px):
 				// a prefix of no table (a secondary index or counter added later): it is not part
 				// of the genesis format, and InitGenesis rebuilds it from the records it restores
 				r.ok("G1-runtime-exported", m+"|"+px, pos, "written at run time; not exported, rebuilt by InitGenesis from the records it restores (derived index)")
